@@ -43,12 +43,17 @@ abbrev MAX_CNAME_DEPTH : Nat := 8
 structure RData where
   tag : Nat
   target : Option LName
+  /-- NSEC: the type bitmap (type codes, ascending) -/
+  types : List Nat := []
   deriving DecidableEq, Repr, Inhabited
 
 structure RRset where
   name : LName
   type : Nat
   rdatas : List RData
+  /-- signed zones: the `labels` field of the RRset's RRSIG (`RecordSet::rrsigs`, one signer);
+  `none` in an unsigned zone -/
+  sigLabels : Option Nat := none
   deriving DecidableEq, Repr, Inhabited
 
 abbrev Zone := List RRset
@@ -120,9 +125,11 @@ def wildSource (z : Zone) (name : LName) (qtype : Nat) : Option (LName × RRset)
   | [] => none
   | l :: rest => if l == star then none else wildClimb z qtype rest
 
-/-- `inner_lookup_wildcard`: the RRset found is re-owned by the query name. -/
+/-- `inner_lookup_wildcard`: the RRset found is re-owned by the query name (with DO its RRSIGs
+are cloned and re-owned too: `sigLabels` keeps the wildcard's label count). -/
 def innerLookupWildcard (z : Zone) (name : LName) (qtype : Nat) : Option RRset :=
-  (wildSource z name qtype).map fun (_, rr) => { name := name, type := rr.type, rdatas := rr.rdatas }
+  (wildSource z name qtype).map fun (_, rr) =>
+    { name := name, type := rr.type, rdatas := rr.rdatas, sigLabels := rr.sigLabels }
 
 /-- `InnerInMemory::inner_lookup` -/
 def innerLookup (z : Zone) (name : LName) (qtype : Nat) : Option RRset :=
